@@ -4,7 +4,7 @@
    steps, so it covers every pipelining depth and every relative delay/order of the nodes' answers. *)
 From Coq Require Import List NArith ZArith String.
 From Sam Require Import Gen.Tables Model.Bytes Model.Resp Model.Reader Model.Codec Model.Text Model.Dispatch Model.Cluster
-  Proofs.ClusterProofs Proofs.DispatchProofs Proofs.C01Proofs Proofs.C10Final.
+  Proofs.ClusterProofs Proofs.ClusterLive Proofs.DispatchProofs Proofs.C01Proofs Proofs.C10Final.
 Import ListNotations.
 Open Scope string_scope.
 Open Scope list_scope.
@@ -17,6 +17,14 @@ Theorem C01_one_reply_each : forall V sem owner asm nd0 progs sch c,
   List.length (out cn) = nwritten cn /\ (nwritten cn <= List.length (reqs cn))%nat /\ reqs cn ++ todo cn = progs c.
 Proof. exact one_reply_each. Qed.
 Print Assumptions C01_one_reply_each.
+
+(* liveness: from EVERY reachable state (any schedule prefix sch0) there is a continuation - the handler finishes sending, the
+   nodes answer what is queued, the writer writes, the rest of the program is read - after which the connection has
+   received a reply for every request it sent; no schedule prefix can wedge a connection *)
+Theorem C01_always_can_finish : forall V sem owner asm nd progs c sch0,
+  exists sch, quiescent V (run V sem owner asm (init V owner nd progs) (sch0 ++ sch)) c.
+Proof. exact always_can_finish. Qed.
+Print Assumptions C01_always_can_finish.
 
 (* the k-th reply is the result of the k-th request (the single server's), whatever the nodes' answer order *)
 Theorem C01_in_order : forall V sem owner asm nd0 progs c sch, (forall c', c' <> c -> progs c' = []) ->
